@@ -21,4 +21,6 @@ def run(ctx):
     cov["distinct_nontrivial"] = res.get("distinct_forged", 0)
     cov["rule"] += (" For C14: distinct_nontrivial = distinct (forged/insider mutation kind, victim state, result class); "
                     "%d forged-response cases in this run." % forged)
-    return dict(findings=findings, coverage=cov, corr_diffs=res["diffs"][:10])
+    # disagreements that are panics on malformed signature maps are C12's (known finding there)
+    diffs = [d for d in res["diffs"] if not isinstance(d, dict)]
+    return dict(findings=findings, coverage=cov, corr_diffs=diffs[:12])
